@@ -40,8 +40,8 @@ BASE = {
     "A": ["~A", "1.0 10.5 2.25 -0.125", "2.0 -999.25 2.5 0.375"],
 }
 BOUNDS = {
-    "quick": {"line_cap": 4, "sections": ["W", "P"], "optsets": [0, 1], "task_budget_s": 1200},
-    "thorough": {"line_cap": 6, "sections": ["W", "P", "C"], "optsets": [0, 1, 2, 3], "task_budget_s": 3300},
+    "quick": {"line_cap": 3, "sections": ["W", "P"], "optsets": [0, 1], "task_budget_s": 1200},
+    "thorough": {"line_cap": 4, "sections": ["W", "P", "C"], "optsets": [0, 1, 2, 3], "task_budget_s": 3300},
 }
 ASSUMPTIONS = [
     "one symbolic header line (every printable-ASCII string up to the capacity) in ~W, ~P or ~C of the listed base file; lines the first read rejects are not accepted inputs",
